@@ -527,7 +527,7 @@ class Pool(Plugin):
     def generate(self, tier, rng):
         n = self.n_quick if tier == "quick" else self.n_thorough
         cases = [self.gen_case(rng, tier) for _ in range(n)]
-        if self.prop in ("C15", "C06") and tier != "quick":
+        if self.prop in ("C15", "C06", "C04") and tier != "quick":
             # per-origin bookkeeping under pressure: histories over 257-270 distinct origins (expensive to evaluate:
             # every snapshot lists every origin, about 90 s each; thorough tier only, four of them, no closing procedure)
             r2 = random.Random(rng.random())
